@@ -1,8 +1,8 @@
 (* Extraction of the executable Lsm model (acceptor for recorded histories of the real store).
    Directives: ExtrOcamlBasic only; N / positive / nat stay inductive. *)
 From Coq Require Import NArith List.
-From Blue Require Import Lsm.Model Lsm.History.
+From Blue Require Import Lsm.Model Lsm.History Lsm.ModelConcurrent.
 Require Import ExtrOcamlBasic.
 Extraction Language OCaml.
-Extraction "../ocaml/lsm/gen_lsm.ml" init_at step acceptedb get load valid_compactionb vc_shape vc_slice vc_rest vc_range vc_closed vc_ids outputs_okb gc_outputs_okb
+Extraction "../ocaml/lsm/gen_lsm.ml" cinit_at cstep cacceptedb entries_eqb input_entries conflictb no_conflictb fresh_forb merge_okb gc_okb init_at step acceptedb get load valid_compactionb vc_shape vc_slice vc_rest vc_range vc_closed vc_ids outputs_okb gc_outputs_okb
   wf_versionb orderedb apply_compaction flush subsetb file_entries sort_entries N.of_nat N.to_nat N.add N.mul N.div_eucl.
